@@ -33,6 +33,13 @@ Templates ==
       Outer |-> RuleP(<<"z">>, Call("Wrap", <<Pos(Left(Ref("z"), Str(<<comma>>)))>>)),     \* compound argument mentioning a parameter
       Opt2  |-> RuleP(<<"z">>, Call("Twice", <<Pos(Opt(Ref("z")))>>)),
       Eq    |-> RuleP(<<"q">>, Where(W, Lam("eq", "q"))),
+      Shadow |-> RuleP(<<"Word">>, Left(Right(Str(<<lpar>>), Ref("Word")), Str(<<rpar>>))),   \* parameter named like a rule
+      Many  |-> RuleP(<<"p">>, Star(Ref("p"))),
+      Some2 |-> RuleP(<<"p">>, Rep(Ref("p"), Nb(2), NoB)),
+      Either |-> RuleP(<<"p", "q">>, Ch2(Ref("p"), Ref("q"))),
+      Maybe |-> RuleP(<<"p">>, Seq2(Opt(Ref("p")), Expect(Ref("p")))),
+      Items |-> ClassP(<<"p">>, <<Field("items", Star(Ref("p"))), Field("tail", Opt(A1))>>),
+      Close |-> RuleP(<<"q">>, Where(Plus(B1), Lam("eq", "q"))),          \* a run equal to the (list) argument
       Word  |-> Rule(W) ]
 
 P(e) == Pos(e)
@@ -68,7 +75,23 @@ Sites == <<
   (* 25 compound argument with repetition *) Call("Twice", <<P(Plus(A1))>>),
   (* 26 argument using Opt of literal at same pos *) Ch2(Call("Twice", <<P(A1)>>), Call("Twice", <<P(Opt(A1))>>)),
   (* 27 case-insensitive literal argument *) Call("Wrap", <<P(StrI(<<a>>))>>),
-  (* 28 regex argument *)     Call("Twice", <<P(AnyAB)>>)
+  (* 28 regex argument *)     Call("Twice", <<P(AnyAB)>>),
+  (* 29 parameter shadows a rule name *) Call("Shadow", <<P(A1)>>),
+  (* 30 parameter directly under a repetition, argument fails after consuming *)
+        Seq2(Call("Many", <<P(Seq2(A1, B1))>>), A1),
+  (* 31 ... under a bounded repetition *) Ch2(Call("Some2", <<P(Seq2(A1, B1))>>), W),
+  (* 32 parameter as a non-last alternative *) Seq2(Call("Either", <<P(Seq2(A1, B1)), P(A1)>>), Opt(A1)),
+  (* 33 parameter under option and lookahead *) Seq2(Call("Maybe", <<P(Seq2(A1, B1))>>), W),
+  (* 34 class template with the parameter under a repetition *) Call("Items", <<P(Seq2(A1, B1))>>),
+  (* 35 data-dependent compound argument under a repetition *)
+        Let("k", Wd, Seq2(Call("Many", <<P(Left(Rep(B1, Nm("k"), Nm("k")), Str(<<comma>>)))>>), Star(B1))),
+  (* 36 shadowing by keyword *) Call("Shadow", <<Kw("Word", Ch2(B1, A1))>>),
+  (* 37 the same template at the same position with different unhashable (list) arguments:
+        a fence is closed by a run equal to the run that opened it *)
+        Star(Ch2(Let("o", Plus(B1), Seq2(Plus(A1), Call("Close", <<P(Ref("o"))>>))), AnyAB)),
+  (* 38 ... with the list arguments reversed / permuted *)
+        Ch2(Let("o", Seq2(A1, B1), Right(Str(<<comma>>), Left(Call("Val", <<P(Ref("o"))>>), Str(<<comma>>)))),
+            Let("o", Seq2(Right(A1, B1), Expect(Str(<<comma>>)) ), Right(Str(<<comma>>), Call("Val", <<P(Ref("o"))>>))))
 >>
 
 Grammar(i) == [rules |-> ("start" :> Rule(Sites[i])) @@ Templates, ign |-> <<>>, start |-> "start"]
@@ -78,7 +101,10 @@ Texts == TextSeqUpTo(<<a, b, lpar, rpar>>, IF Tier = "quick" THEN 4 ELSE 5)
          \o << <<lpar, a, comma, rpar>>, <<lpar, lpar, a, b, rpar, rpar>>, <<a, b, comma, a, b>>, <<a, b, comma, a>>,
                <<a, b, comma, lpar, a, b, rpar>>, <<a, b, comma, lpar, a, rpar>>, <<50, a, a>>, <<50, a>>, <<48>>,
                <<51, b, b, b>>, <<50, b, a, 49, a, 48, 50, a, b>>, <<b, b, a>>, <<a, comma>>, <<a, comma, a>>,
-               <<a, b, comma>>, <<lpar, a, a, rpar>>, <<lpar, bigA, rpar>>, <<49, a>>, <<49, b, 50, a, b>> >>
+               <<a, b, comma>>, <<lpar, a, a, rpar>>, <<lpar, bigA, rpar>>, <<49, a>>, <<49, b, 50, a, b>>,
+               <<a, b, a, b, a>>, <<a, b, a, b, a, b>>, <<50, b, b, comma, b, b, comma, b>>, <<49, b, comma, b, b>>,
+               <<a, b, a, a>>, <<a, b, a, b, a, a>>, <<b, b, b, b, a, b, b>>, <<b, b, a, a, b, b, b>>, <<b, b, b, a, b>>,
+               <<b, b, b, b, a, a, b, b, b, b>>, <<a, b, comma, a>>, <<a, b, comma, a, comma>> >>
 
 VARIABLES site, named, done
 vars == <<site, named, done>>
